@@ -35,6 +35,8 @@ pub enum Mut {
     SwapLR(usize),
     DropRound,
     DupRound,
+    /// append this many copies of the last (L, R) pair (round counts at and beyond the machine word size)
+    AppendRounds(usize),
     ExtTag(u8),
 }
 
@@ -138,7 +140,15 @@ pub fn menu(p: &RefProof, reduced: bool) -> Vec<Mut> {
     if !p.l.is_empty() {
         out.push(Mut::DupRound);
     }
-    for t in 0..=7u8 {
+    if !p.l.is_empty() {
+        for target in [31usize, 32, 63, 64, 65, 128, 256] {
+            if target > p.l.len() + 1 {
+                out.push(Mut::AppendRounds(target - p.l.len()));
+            }
+        }
+    }
+    // every other value of the degree byte (a decoder that reduces the byte, masks it or indexes a table with it aliases some)
+    for t in 0..=255u8 {
         if t != p.ext {
             out.push(Mut::ExtTag(t));
         }
@@ -223,6 +233,14 @@ pub fn apply<P: G>(p: &RefProof, m: &Mut, h: &P) -> Option<Vec<u8>> {
             let r = *q.r.last().unwrap();
             q.l.push(l);
             q.r.push(r);
+        },
+        Mut::AppendRounds(k) => {
+            let l = *q.l.last()?;
+            let r = *q.r.last()?;
+            for _ in 0..*k {
+                q.l.push(l);
+                q.r.push(r);
+            }
         },
         Mut::ExtTag(t) => {
             let mut b = crate::refbp::ref_encode(&q);
